@@ -18,7 +18,7 @@ PREFIXES = ['C18.']
 def run_tv(ctx, n_tables, max_len=800):
     rng = np.random.default_rng(ctx.seed + 18)
     recs, metas = [], []
-    tabs = tt.analysis_tables(ctx, n_tables, 181, max_len=max_len)
+    tabs = tt.analysis_tables(ctx, n_tables, 181, max_len=max_len, large=(1, 1) if n_tables < 100 else (4, 4))
     for c, df in tabs:
         n = len(c['sig'])
         roles = tt.roles_of(df)
